@@ -1,6 +1,6 @@
 (* C08 -- Path text and parsed segments round-trip in both notations.
    Statements only; proofs live in Proofs/RtStep.v RtSeg.v RtInt.v RtRender.v RtTables.v
-   RtCanon.v RtClauses.v RtPop.v.
+   RtCanon.v RtClauses.v RtPop.v RtAppend.v RtAdd.v.
 
    Vocabulary: Spec/C08Spec.v defines the documented writer [render_ref] over
    styled segments (a segment plus the writer's free choices: quote
@@ -32,11 +32,16 @@
      C08_parse_render_F21           (Example) finding F21, parser half, repaired: escaped / regex quote-wrapped terms
      C08_canon_F21                  (Example) finding F21, printer half, repaired: str() escapes the quotes of a term
      C08_eq_iff_F23                 (Example) finding F23, repaired: == and an escaped / demarcated dot
-   NOT proved: clause 4 for a tail that carries its own demarcation ([0], [a=b],
-   (collector), [&a]) and for accidental suffix matches of a non-canonical tail;
-   both are checked on every generated case by harness/c08.py (judge). *)
+     C08_appended_parse             (round gapA) what append() writes for a tail with its own demarcation
+                                    ("x.[0]", "/x/[a=b]", "(a).&(b)") and what it parses to
+     C08_append_pop_all_partial / C08_append_pop_text_partial
+                                    (round gapA) clause 4 for EVERY kind of tail and style; the guard
+                                    "canonical tail or no suffix match" is discharged (C08_tail_canonical_or_clash)
+     C08_add_is_append_on_copy      (round gapA) __add__
+     C08_strip_prefix_partial / C08_strip_prefix_root / C08_strip_prefix_other / C08_strip_prefix_refuted
+                                    (round gapA) strip_path_prefix *)
 From Coq Require Import List Ascii String ZArith Bool.
-From YP Require Import Outcome PyStr Generated PathParser PathPrinter C08Spec RtStep RtSeg RtInt RtRender RtTables RtCanon RtClauses RtPop.
+From YP Require Import Outcome PyStr Generated PathParser PathPrinter C08Spec RtStep RtSeg RtInt RtRender RtTables RtCanon RtClauses RtPop RtAppend RtAdd.
 Import ListNotations.
 Open Scope string_scope.
 
@@ -297,6 +302,182 @@ Example C08_append_pop_instances :
   = (Ok (Some TKey, AStr "a b"), "x.y")
   /\ (let p := y_append "\/" (y_new "/x/\/") in y_orig (snd (y_pop p))) = "/x/\/".
 Proof. vm_compute. split; reflexivity. Qed.
+
+(* ---- clause 4 for EVERY kind of tail (round gapA).
+   append() writes "<path><separator><text of the segment>" whatever the
+   segment is, so a tail that carries its own demarcation gives a text the
+   reference writer never produces: "x.[0]", "/x/[a=b]", "(a).+(b)".  Its
+   parse is the path's segments followed by the tail -- except that the
+   intersection operator "&" of a collector is taken for the anchor mark right
+   after a separator, so "(a).&(b)" reads as (a) then the plain collector (b)
+   ([tail_eff]; replayed on the real code). ---- *)
+Theorem C08_appended_parse :
+  forall (sp : sep) (strip : bool) (l : list sseg) (x : sseg),
+    l <> [] -> wf sp l = true -> wf_go false (l ++ [x]) = true -> needs_sep x = false ->
+    parse (Forced sp) strip (render_ref sp l ++ c1 (sep_char sp) ++ body (sep_char sp) x)
+    = Ok (map (kseg strip (sep_char sp)) (map plain_x l) ++ [kseg strip (sep_char sp) (plain_x (tail_eff x))])%list.
+Proof. exact parse_appended. Qed.
+Print Assumptions C08_appended_parse.
+
+(* a tail is written in its canonical form, or it differs from its canonical
+   form at some position counted from the END (then none of pop()'s three
+   suffix tests can match): the former guard [tail_canonical || no_suffix_match]
+   always holds *)
+Theorem C08_tail_canonical_or_clash :
+  forall (sp : sep) (prev : bool) (x : sseg),
+    wf_seg prev x = true -> wfc_seg x = true ->
+    body (sep_char sp) x = tail_canon sp x
+    \/ clash (rev_str (tail_canon sp x)) (rev_str (body (sep_char sp) x)) = true.
+Proof.
+  intros sp prev x Hw Hc. destruct (needs_sep x) eqn:E;
+    [exact (sep_tail_cases sp prev x E Hw) | exact (self_tail_cases sp prev x E Hw Hc)].
+Qed.
+Print Assumptions C08_tail_canonical_or_clash.
+
+(* append then pop restores the segments of the path, for every kind and style
+   of tail.  Guards left: [wfc] (what the notation / str() cannot express), the
+   property's own exclusion on the text given and on the text pop() rebuilds,
+   and "the rebuilt dot text is not blank" (see docs/C08.md: a path whose only
+   segment is a key made of tabs / line feeds is the EMPTY path to YAMLPath()). *)
+Theorem C08_append_pop_all_partial :
+  forall (sp : sep) (l : list sseg) (x : sseg),
+    l <> [] -> wfc sp l = true -> wfc sp (l ++ [x]) = true ->
+    dot_text_ok sp (render_ref sp l) = true ->
+    dot_text_ok sp (canon_of sp sp l) = true -> (sp = Dot -> nonblank (canon_of sp sp l) = true) ->
+    exists sg p', y_pop (y_append (body (sep_char sp) x) (y_new (render_ref sp l))) = (Ok sg, p')
+                  /\ sg = kseg false (sep_char sp) (plain_x (tail_eff x))
+                  /\ fst (y_escaped p') = Ok (segs_of l).
+Proof. exact append_pop_all. Qed.
+Print Assumptions C08_append_pop_all_partial.
+
+(* when the tail is written in canonical form the path TEXT is restored
+   exactly, and nothing is asked of the path's canonical text *)
+Theorem C08_append_pop_text_partial :
+  forall (sp : sep) (l : list sseg) (x : sseg),
+    l <> [] -> wfc sp l = true -> wfc sp (l ++ [x]) = true ->
+    dot_text_ok sp (render_ref sp l) = true ->
+    String.eqb (body (sep_char sp) x) (tail_canon sp (tail_eff x)) = true ->
+    exists p', y_pop (y_append (body (sep_char sp) x) (y_new (render_ref sp l)))
+               = (Ok (kseg false (sep_char sp) (plain_x (tail_eff x))), p')
+               /\ y_orig p' = render_ref sp l /\ fst (y_escaped p') = Ok (segs_of l).
+Proof. exact append_pop_text. Qed.
+Print Assumptions C08_append_pop_text_partial.
+
+Example C08_append_pop_self_nonvacuous :
+  let k := ((Some TKey, AStr "x"), plain_style) in
+  let coll := ((Some TCollector, ACollector CNone "a"), plain_style) in
+  let idx := ((Some TIndex, AInt 0%Z), plain_style) in
+  let search_q := ((Some TSearch, ASearch true MEquals "full name" every_escapable), mkstyle (Some DQ) false true "/"%char false) in
+  let anchor_b := ((Some TAnchor, AStr "a1"), mkstyle None true false "/"%char false) in
+  let coll_and := ((Some TCollector, ACollector CAnd "b"), plain_style) in
+  wfc Dot [k; idx] = true /\ wfc Slash [k; search_q] = true /\ wfc Dot [k; anchor_b] = true /\ wfc Slash [coll; coll_and] = true
+  /\ needs_sep idx = false /\ needs_sep search_q = false /\ needs_sep anchor_b = false
+  /\ String.eqb (body "."%char idx) (tail_canon Dot (tail_eff idx)) = true
+  /\ String.eqb (body "/"%char search_q) (tail_canon Slash (tail_eff search_q)) = false
+  /\ (let p := y_append "[0]" (y_new "x") in (y_orig p, fst (y_pop p), y_orig (snd (y_pop p))))
+     = ("x.[0]", Ok (Some TIndex, AInt 0%Z), "x")
+  /\ (let p := y_append (body "/"%char search_q) (y_new "/x") in (fst (y_escaped (snd (y_pop p))), y_orig (snd (y_pop p))))
+     = (Ok [(Some TKey, AStr "x")], "/x")
+  /\ (let p := y_append "[&a1]" (y_new "x") in (fst (y_pop p), y_orig (snd (y_pop p))))
+     = (Ok (Some TAnchor, AStr "a1"), "x")
+  /\ (let p := y_append "&(b)" (y_new "/(a)") in (y_orig p, fst (y_pop p), y_orig (snd (y_pop p)), fst (y_escaped (snd (y_pop p)))))
+     = ("/(a)/&(b)", Ok (Some TCollector, ACollector CNone "b"), "/(a)/&", Ok [(Some TCollector, ACollector CNone "a")]).
+Proof. vm_compute. repeat split; reflexivity. Qed.
+
+(* ---- __add__ (round gapA): append on a fresh copy.  The sum parses to the
+   segments of the path followed by the appended segment; the operand is not
+   modified (the model function has no "object afterwards": YAMLPath(self)
+   only reads self.original), whatever its caches hold. ---- *)
+Theorem C08_add_is_append_on_copy :
+  forall (sp : sep) (l : list sseg) (x : sseg) (p : ypath),
+    y_orig p = render_ref sp l ->
+    l <> [] -> wf sp l = true -> wf sp (l ++ [x]) = true -> dot_text_ok sp (render_ref sp l) = true ->
+    y_add p (body (sep_char sp) x) = y_append (body (sep_char sp) x) (y_new (render_ref sp l))
+    /\ y_orig (y_add p (body (sep_char sp) x)) = render_ref sp l ++ c1 (sep_char sp) ++ body (sep_char sp) x
+    /\ fst (y_escaped (y_add p (body (sep_char sp) x))) = Ok (segs_of l ++ [fst (tail_eff x)])%list.
+Proof. exact add_is_append_on_copy. Qed.
+Print Assumptions C08_add_is_append_on_copy.
+
+(* ---- strip_path_prefix (round gapA).  It compares the forward-slash
+   canonical TEXTS and cuts the text.  Stripping the prefix q from q ++ r gives
+   r when the first segment of r is a key, "*" or "**" (or r is empty): then
+   the remaining text begins with "/".  Guard [sep_head]: see the _refuted
+   witnesses below -- NOT a listed finding of C08 (strip_path_prefix is outside
+   the property text); reported to the coordinator. ---- *)
+Theorem C08_strip_prefix_partial :
+  forall (sp : sep) (q r : list sseg),
+    q <> [] -> wfc sp q = true -> wfc sp (q ++ r) = true ->
+    dot_text_ok sp (render_ref sp q) = true -> dot_text_ok sp (render_ref sp (q ++ r)) = true ->
+    sep_head r = true ->
+    exists p' path' prefix',
+      y_strip_prefix (y_new (render_ref sp (q ++ r))) (y_new (render_ref sp q)) = (Ok (Some p'), path', prefix')
+      /\ fst (y_escaped p') = Ok (segs_of r)
+      /\ y_orig path' = render_ref sp (q ++ r) /\ y_orig prefix' = render_ref sp q.
+Proof. exact strip_prefix. Qed.
+Print Assumptions C08_strip_prefix_partial.
+
+(* the root prefix ("/" or the empty path) strips nothing: the very object is returned *)
+Theorem C08_strip_prefix_root :
+  forall path : ypath,
+    y_strip_prefix path (y_new "/") = (Ok None, path, mkyp "/" (Some Slash) [] [] "/")
+    /\ fst (fst (y_strip_prefix path (y_new ""))) = Ok None /\ snd (fst (y_strip_prefix path (y_new ""))) = path.
+Proof. exact strip_prefix_root. Qed.
+Print Assumptions C08_strip_prefix_root.
+
+(* a prefix whose canonical text is no prefix of the path's canonical text
+   leaves the path unchanged (the very object is returned, text untouched) *)
+Theorem C08_strip_prefix_other :
+  forall (sp sp' : sep) (q l : list sseg),
+    q <> [] -> l <> [] -> wfc sp' q = true -> wfc sp l = true ->
+    dot_text_ok sp' (render_ref sp' q) = true -> dot_text_ok sp (render_ref sp l) = true ->
+    starts_with (canon_of sp' Slash q) (canon_of sp Slash l) = false ->
+    exists path' prefix',
+      y_strip_prefix (y_new (render_ref sp l)) (y_new (render_ref sp' q)) = (Ok None, path', prefix')
+      /\ y_orig path' = render_ref sp l /\ y_orig prefix' = render_ref sp' q.
+Proof. exact strip_prefix_other. Qed.
+Print Assumptions C08_strip_prefix_other.
+
+(* what strip_path_prefix does not guarantee: a remainder that begins with a
+   bracket is read in dot notation; a prefix of the TEXT is stripped although
+   it is no prefix of the SEGMENTS *)
+Definition stripped_segs (path prefix : string) : outcome (list seg) :=
+  match fst (fst (y_strip_prefix (y_new path) (y_new prefix))) with
+  | Ok (Some p') => fst (y_escaped p')
+  | Ok None => Raise (PyCrash ValueError)     (* "unchanged": not the case in the witnesses *)
+  | Raise e => Raise e
+  | OutOfFuel => OutOfFuel
+  end.
+
+Theorem C08_strip_prefix_refuted :
+  (exists (sp : sep) (q r : list sseg) (got : list seg),
+     q <> [] /\ wfc sp (q ++ r) = true /\ wfc sp q = true
+     /\ stripped_segs (render_ref sp (q ++ r)) (render_ref sp q) = Ok got
+     /\ got <> segs_of r)
+  /\ (exists path prefix got,
+        stripped_segs path prefix = Ok got
+        /\ parse Auto true path = Ok [(Some TKey, AStr "ab"); (Some TKey, AStr "c")]
+        /\ parse Auto true prefix = Ok [(Some TKey, AStr "a")]).
+Proof.
+  split.
+  - exists Slash, [((Some TKey, AStr "a"), plain_style)],
+           [((Some TIndex, AInt 0%Z), plain_style); ((Some TKey, AStr "x"), plain_style)],
+           [(Some TIndex, AInt 0%Z); (Some TKey, AStr "/x")].
+    split; [discriminate|]. split; [vm_compute; reflexivity|]. split; [vm_compute; reflexivity|].
+    split; [vm_compute; reflexivity|]. cbn. intros H. discriminate H.
+  - exists "ab.c", "a", [(Some TKey, AStr "b/c")]. split; [vm_compute; reflexivity|]. split; vm_compute; reflexivity.
+Qed.
+Print Assumptions C08_strip_prefix_refuted.
+
+Example C08_strip_prefix_nonvacuous :
+  let q := [((Some TKey, AStr "hash"), plain_style); ((Some TIndex, AInt 2%Z), plain_style)] in
+  let r := [((Some TKey, AStr every_escapable), mkstyle (Some DQ) false false "/"%char false);
+            ((Some TSearch, ASearch true MEquals "a" "b c"), mkstyle (Some SQ) false true "/"%char false)] in
+  wfc Dot q = true /\ wfc Dot (q ++ r) = true /\ sep_head r = true
+  /\ dot_text_ok Dot (render_ref Dot (q ++ r)) = true
+  /\ (let '(res, _, _) := y_strip_prefix (y_new (render_ref Dot (q ++ r))) (y_new (render_ref Dot q)) in
+      match res with Ok (Some p) => fst (y_escaped p) | _ => Ok [] end) = Ok (segs_of r)
+  /\ starts_with (canon_of Dot Slash q) (canon_of Slash Slash r) = false.
+Proof. vm_compute. repeat split; reflexivity. Qed.
 
 (* ---- findings ---- *)
 (* F21, the parser half -- REPAIRED (fix in YAMLPath._parse_path: the term is
